@@ -229,6 +229,13 @@ def body(cfg):
             S.claim("area_resize_preserves_the_physical_integral", S.eq(_integral(darsia, out), _integral(darsia, img)))
         arr_out = rs(a.copy())
         S.claim("array_input_gives_the_same_pixels", S.eq(arr_out, out.img))
+        if cfg["conservative"] and cfg["payload"] == "scalar":
+            # the SAME Resize object applied to a second image with another voxel count
+            src2 = (dst[0] * 2, dst[1]) if (dst[0] * 2, dst[1]) != src else (dst[0], dst[1] * 2)
+            if src2[0] * src2[1] <= 36:
+                b = S.array("b2", src2, lo=-10, hi=10)
+                out2 = rs(b.copy())
+                S.claim("reused_resize_object_preserves_the_sum_of_a_second_image", S.and_(tuple(out2.shape) == dst, S.eq(np.sum(out2, axis=(0, 1)), np.sum(b, axis=(0, 1)))))
         S.claim("input_untouched", S.eq(img.img, a))
         S.observe("out", out.img)
         return
